@@ -277,6 +277,13 @@ func runReq(raw json.RawMessage, seed int64, rec *Rec) {
 	case "truncated":
 		full := env(0, encodeBV(codec, m1))
 		body = full[:len(full)-2]
+	case "manyok": // three messages of about 20 bytes: each below a limit of 64 (also when compressed), together above it
+		m3 := payloadFor(3, 18, rng)
+		st.table.Put(3, m3)
+		big1, big2 := payloadFor(1, 18, rng), payloadFor(2, 18, rng)
+		st.table.Put(1, big1)
+		st.table.Put(2, big2)
+		body = append(append(env(0, encodeBV(codec, big1)), env(0, encodeBV(codec, big2))...), env(0, encodeBV(codec, m3))...)
 	case "badmsg":
 		body = env(0, bad)
 	case "badutf8": // does not decode, and what an error message would quote of it is not valid UTF-8
